@@ -43,7 +43,7 @@ LEVEL_NOTE = "Trusted: SHA-1 digests of array bytes+dtype+shape+flags; scikit-le
 TECHNIQUE = "runtime purity monitor (argument digests before/after every tapped call) plus recorded call histories checked offline (repeat, read-only, refit-vs-fresh, clone, rejection with paired control)"
 FLOORS = {
     "quick": {"eval:purity": 20000, "eval:repeat": 85, "eval:readonly": 85, "eval:history": 28, "eval:clone": 18, "eval:unfitted": 9,
-              "eval:rejection": 250, "eval:aliasing": 20, "eval:stale_state": 75, "eval:result_ownership": 40, "eval:reconfigure": 85, "eval:error_path": 30, "eval:param_fidelity": 24, "distinct_nontrivial": 5000},
+              "eval:rejection": 250, "eval:aliasing": 20, "eval:stale_state": 75, "eval:result_ownership": 40, "eval:reconfigure": 85, "eval:error_path": 30, "eval:param_fidelity": 24, "eval:concurrent": 60, "yields_injected": 2000, "distinct_nontrivial": 5000},
     "thorough": {"eval:purity": 600000, "eval:repeat": 2800, "eval:readonly": 2800, "eval:history": 1100, "eval:clone": 750, "eval:rejection": 8000,
                  "eval:aliasing": 750, "distinct_nontrivial": 100000},
 }
@@ -53,8 +53,8 @@ CASE_TIMEOUT_S = 1200
 
 def plan(tier):
     if tier == "quick":
-        return collections.OrderedDict(specs=2, history=6, clone=4, unfitted=1, rejection=3, aliasing=6, reconfigure=4, borrowed=8)
-    return collections.OrderedDict(specs=70, history=240, clone=160, unfitted=20, rejection=100, aliasing=240, reconfigure=160, borrowed=120, ambient=17)
+        return collections.OrderedDict(specs=2, history=6, clone=4, unfitted=1, rejection=3, aliasing=6, reconfigure=4, borrowed=8, concurrent=3)
+    return collections.OrderedDict(specs=70, history=240, clone=160, unfitted=20, rejection=100, aliasing=240, reconfigure=160, borrowed=120, concurrent=60, ambient=17)
 
 
 # ----------------------------------------------------------------------
@@ -339,11 +339,11 @@ def _query(rng, coords):
 # ----------------------------------------------------------------------
 # call specs for repeatability / read-only acceptance
 # ----------------------------------------------------------------------
-def _specs(vd, rng):
+def _specs(vd, rng, n=None):
     """Yield (name, callable(args_dict) -> result, args_dict). All arrays live in args_dict."""
     import xarray as xr
 
-    coords, data, weights = _dataset(rng, n=int(rng.choice([20, 30, 42])), weights=True)
+    coords, data, weights = _dataset(rng, n=int(rng.choice([20, 30, 42])) if n is None else n, weights=True)
     east, north = coords
     region = [float(east.min()), float(east.max()), float(north.min()), float(north.max())]
     span = min(region[1] - region[0], region[3] - region[2])
@@ -375,8 +375,9 @@ def _specs(vd, rng):
     yield "rolling_window", lambda a: vd.rolling_window(a["c"], size=span / 2, spacing=span / 4), {"c": (east, north)}
     yield "rolling_window_region", lambda a: vd.rolling_window(a["c"], size=span / 2, spacing=span / 4, region=a["region"]), {"c": (east, north), "region": np.array(region)}
     yield "expanding_window", lambda a: vd.expanding_window(a["c"], center=a["center"], sizes=a["sizes"]), {"c": (east, north), "center": np.array([east.mean(), north.mean()]), "sizes": np.array([span / 4, span / 2])}
-    yield "longitude_continuity", lambda a: vd.longitude_continuity(a["c"], a["region"]), {"c": [np.array([350.0, 5.0, 10.0, -170.0, 360.0]), np.array([-5.0, 0.0, 5.0, 1.0, 2.0])], "region": np.array([340.0, 20.0, -10.0, 10.0])}
-    yield "longitude_continuity_360", lambda a: vd.longitude_continuity(a["c"], a["region"]), {"c": [np.array([-170.0, 200.0, 360.0, 185.0]), np.array([-5.0, 0.0, 5.0, 1.0])], "region": np.array([150.0, 250.0, -10.0, 10.0])}
+    lon_w, lon_e = [(340.0, 20.0), (350.0, 10.0), (170.0, -170.0), (-30.0, 45.0)][seed % 4]
+    yield "longitude_continuity", lambda a: vd.longitude_continuity(a["c"], a["region"]), {"c": [np.array([350.0, 5.0, 10.0, -170.0, 360.0]), np.array([-5.0, 0.0, 5.0, 1.0, 2.0])], "region": np.array([lon_w, lon_e, -10.0, 10.0])}
+    yield "longitude_continuity_360", lambda a: vd.longitude_continuity(a["c"], a["region"]), {"c": [np.array([-170.0, 200.0, 360.0, 185.0]), np.array([-5.0, 0.0, 5.0, 1.0])], "region": np.array([150.0 + seed % 7, 250.0 - seed % 5, -10.0, 10.0])}
     yield "variance_to_weights", lambda a: vd.variance_to_weights(a["var"]), {"var": var}
     yield "variance_to_weights_tuple", lambda a: vd.variance_to_weights(a["var"]), {"var": (var, var.ravel() * 2)}
     yield "maxabs", lambda a: vd.maxabs(a["x"], a["y"]), {"x": var, "y": -east}
@@ -501,6 +502,67 @@ def run_case(run, tap, stream, index, rng):
                         run.violation("stale_state", "%s: a call on array objects that were modified in place since an earlier call differs from the same call on fresh copies (state kept across calls)" % name,
                                       {"spec": name, "args_after_modification": args_live}, key="stale:" + name)
             run.sample("specs", {"last_spec": name, "n_args": len(args)})
+        elif stream == "concurrent":
+            # the same public callable running at the same time in several threads on DIFFERENT data of the same shapes: each
+            # result must be what the call returns when made alone (repeatability does not depend on what else is running;
+            # scratch space or fitted objects kept at module / class level would leak between the calls)
+            nsets = int(rng.choice([2, 3]))
+            npts = int(rng.choice([20, 30, 42]))
+            sets = [dict((name, (call, args)) for name, call, args in _specs(vd, np.random.default_rng(int(rng.integers(0, 2 ** 31))), n=npts)) for _ in range(nsets)]
+            names = [name for name in sets[0] if all(name in other for other in sets)]
+            chunk = [name for k, name in enumerate(names) if k % 3 == index % 3]
+            for name in chunk:
+                alone = []
+                for spec in sets:
+                    call, args = spec[name]
+                    alone.append(core.digest(call(args), flags=False))
+
+                def job(call, args):
+                    return lambda: [core.digest(call(args), flags=False) for _ in range(2)]
+                inject = 0.3 if (index < 3 or (index // 3) % 2 == 0) else 0.0
+                results = core.run_threads([job(*spec[name]) for spec in sets], timeout=300, yield_probability=inject, seed=index)
+                run.evaluated("concurrent")
+                run.count("concurrent:" + name)
+                run.mark_nontrivial("concurrent", name, index)
+                for k, (res, exc) in enumerate(results):
+                    if isinstance(exc, TimeoutError):
+                        run.note_inconclusive("concurrent %s: %r" % (name, exc))
+                    elif exc is not None:
+                        run.violation("concurrent", "%s raised %r when %d calls on different data ran concurrently (the same call succeeds alone)" % (name, exc, nsets),
+                                      {"spec": name}, key="concurrent-raised:" + name)
+                    elif any(d != alone[k] for d in res):
+                        run.violation("concurrent", "%s: a call returned something else while %d calls on different data of the same shapes ran concurrently than when made alone" % (name, nsets),
+                                      {"spec": name, "threads": nsets}, key="concurrent:" + name)
+            # one fitted estimator shared by all threads, each asking for something else (tiles of a map gridded in parallel)
+            coords, data, weights = _dataset(rng, n=npts, weights=True)
+            vcoords, vdata, vweights = _dataset(rng, n=24, ncomp=2, weights=True)
+            for scalar in (True, False):
+                c, d, w = (coords, data, weights) if scalar else (vcoords, vdata, vweights)
+                e0, n0 = (np.asarray(x).ravel() for x in c)
+                for name, factory in _estimators(vd, rng, scalar=scalar)[index % 3::3]:
+                    est = factory().fit(c, d, w)
+                    asks = []
+                    for k in range(nsets):
+                        reg = [float(e0.min() + 0.1 * k * np.ptp(e0)), float(e0.max() + 0.2 * k * np.ptp(e0)), float(n0.min() - 0.15 * k * np.ptp(n0)), float(n0.max())]
+                        dims = [("northing", "easting"), ("lat", "lon"), ("y", "x")][k % 3]
+                        asks.append((lambda reg, dims, k: lambda: core.digest(
+                            (est.grid(region=reg, shape=(5, 6), dims=dims), est.scatter(region=reg, size=15, random_state=k), est.predict((e0[k:k + 7] + k, n0[k:k + 7])),
+                             est.profile((reg[0], reg[2]), (reg[1], reg[3]), 9, dims=dims)), flags=False))(reg, dims, k))
+                    alone = [ask() for ask in asks]
+                    results = core.run_threads([(lambda ask: lambda: [ask() for _ in range(2)])(ask) for ask in asks], timeout=300, yield_probability=0.3, seed=index)
+                    run.evaluated("concurrent")
+                    run.count("concurrent_shared_instance:" + name)
+                    for k, (res, exc) in enumerate(results):
+                        if isinstance(exc, TimeoutError):
+                            run.note_inconclusive("concurrent shared %s: %r" % (name, exc))
+                        elif exc is not None:
+                            run.violation("concurrent", "%s: grid/scatter/predict/profile on one fitted instance raised %r when asked concurrently from %d threads" % (name, exc, nsets),
+                                          {"estimator": name}, key="concurrent-shared-raised:" + name)
+                        elif any(dg != alone[k] for dg in res):
+                            run.violation("concurrent", "%s: grid/scatter/predict/profile on one fitted instance returned something else when %d threads asked for different regions at the same time" % (name, nsets),
+                                          {"estimator": name, "threads": nsets}, key="concurrent-shared:" + name)
+            run.count("yields_injected", getattr(core.run_threads, "yields_injected", 0) - run.counters.get("yields_injected", 0))
+            run.sample("concurrent", {"specs": len(chunk), "threads": nsets, "n_points": npts})
         elif stream == "history":
             for scalar in (True, False):
                 ncomp = 1 if scalar else 2
